@@ -173,6 +173,7 @@ Lemma ws_loop_sim : forall fuel b2 b1,
 Proof.
   induction fuel as [|f IH]; intros b2 b1 (tp & -> & HR); cbn [ws_loop]; prj2;
     (destruct (wslen b1 =? 0); [apply simr_ok; rel|]); [exact I|].
+  destruct (wwidth b1 =? 0); [apply simr_ok; rel|].
   destruct (spacetag b1) as [st|]; [|exact I].
   eapply simr_bind with (Q := Rel).
   { destruct (N.min (wslen b1) (wwidth b1) =? wwidth b1);
